@@ -61,7 +61,11 @@ def _one(sc):
                 bad.append(f"exported packet {i['n']} carries foreign addresses or IP version")
                 break
         bad += obs["problems"][:2]
-        tr = out_trace(cap, conns, flows, o, sc.get("opts", ()), true_ns=true_ns)
+        if sc.get("all_zero"):          # a capture without a clock: every packet at time 0 -- every exported packet carries exactly that time
+            if any(i["ts"] != 0 for i in o.packets):
+                bad.append("a capture whose packets all carry time 0 is exported with other times")
+        else:
+            tr = out_trace(cap, conns, flows, o, sc.get("opts", ()), true_ns=true_ns)
     rel = [e for e in res.events if e["ev"] in ("feed", "release")]
     if sc.get("stale_first"):           # the older connection's record is not part of this connection's framing: its feed / release are left out
         sq = random.Random(sc["stale_first"]).randrange(1 << 32)
@@ -156,13 +160,21 @@ def run(chk):
         sc = c06.scenario(b["recs"], c06.KINDS[i % len(c06.KINDS)], rng.randrange(1 << 30), 4)     # (every second one full-duplex)
         sc["conns"][0]["flow"] = rnd_flow(rng, rng.choice([4, 6]))
         sc["ts0"], sc["step"] = rng.randrange(10 ** 15, 2 * 10 ** 15), rng.choice([1, 7, 999_983, 1_000_003, 123_457])
+        if i % 7 == 3:
+            sc["ts0"] = 0           # a device without a clock: the capture starts at time 0 (1970-01-01); the first packets of the export carry exactly that
         if b.get("fd"):
             sc["duplex"], sc["duplex_p"], sc["zoo"] = sc["duplex"] or 1, 1.0, 0
         if i % 3 == 0:
             sc["container"] = dict(sub=True, tsresol=9)
             sc["step"] = max(sc["step"], 7)
-        elif i % 3 == 1:
+        elif i % 3 == 1 and sc["ts0"] != 0:        # (positive interface offsets cannot express times before the offset)
             sc["container"] = rng.choice(TWO_IF)
+        jobs.append(sc)
+    for i in range(6 if quick else 60):     # captures of a device without a clock: all times are 0
+        sc = c06.scenario([dict(d=rng.choice("cs"), n=rng.randint(1, 12), k=rng.randint(1, 3)) for _ in range(rng.randint(1, 4))], c06.KINDS[i % len(c06.KINDS)],
+                          rng.randrange(1 << 30), rng.choice([4, 6]))
+        sc["conns"][0]["flow"] = rnd_flow(rng, rng.choice([4, 6]))
+        sc.update(ts0=0, step=0, all_zero=True, zoo=0)
         jobs.append(sc)
     # QUIC ("all connections as in C01 / C02")
     from checks import c02
